@@ -323,7 +323,14 @@ def b_sorted(I, x, key=None, reverse=False):
     if items is None or any(is_z3(i) for i in items):
         raise Unsupported("sorted over symbolic values")
     if key is not None:
-        raise Unsupported("sorted with key")
+        # concrete items, key function evaluated by the executor; only concrete keys can be ordered
+        keys = [I.call(key, [i], {}) for i in items]
+        if any(is_z3(k) for k in keys):
+            raise Unsupported("sorted with symbolic keys")
+        try:
+            return [i for _, i in sorted(zip(keys, range(len(items))), reverse=reverse) for i in [items[i]]]
+        except TypeError:
+            raise PyRaise(ExcVal("TypeError", ("unorderable",)))
     try:
         return sorted(items, reverse=reverse)
     except TypeError:
@@ -489,6 +496,8 @@ def _m(fn):
 
 
 def builtin_getattr(I, obj, attr, node=None):
+    if isinstance(obj, dict) and attr == "__getitem__":
+        return _m(lambda I, k: obj[k])
     # ---- list
     if isinstance(obj, list):
         if attr == "append":
